@@ -24,7 +24,7 @@ RULE_TEXT = ('runs = deterministic sweep over every (phase step x position x fau
              'set of disturbance kinds executed).')
 REACH_PROBES = ['keep', 'no_keep', 'sandbox_created', 'no_sandbox', 'ended_by_fault_with_sandbox', 'ended_pass',
                 'cd_executed', 'env_executed', 'tmp_file_by_case', 'child_wrote_file', 'chmod_readonly',
-                'result_observed_after_act', 'result_observed_before_act', 'double_fault', 'keep_after_failure',
+                'child_left_symlink', 'result_observed_after_act', 'result_observed_before_act', 'double_fault', 'keep_after_failure',
                 'cwd_in_tmp_at_end']
 
 PFX = casegen.PREFIX
@@ -32,7 +32,8 @@ PFX = casegen.PREFIX
 
 def _disturbers(g, phase, n, dirs):
     """A random disturbing item for `phase`; n = unique counter."""
-    menu = ['file_tmp', 'file_act', 'file_cwd', 'dir_cd', 'cd_tmp', 'cd_act', 'env', 'child_write', 'child_chmod']
+    menu = ['file_tmp', 'file_act', 'file_cwd', 'dir_cd', 'cd_tmp', 'cd_act', 'env', 'child_write', 'child_chmod',
+            'child_symlink']
     if phase == 'setup':
         menu += ['unenv', 'env', 'dir_cd']
     k = g.choice(menu)
@@ -58,6 +59,12 @@ def _disturbers(g, phase, n, dirs):
         return [{'k': 'probe', 'id': ident, 'form': g.choice(['%', 'run', '$']),
                  'fx': [['mk', '$CWD', 'k%d.txt' % n]],
                  'beh': {'actions': [{'op': 'write_file', 'path': '$CWD/k%d.txt' % n, 'text': 'k'}]}}]
+    if k == 'child_symlink':
+        ident = '%sy%d' % (PFX[phase], n)
+        where = g.choice(['act', 'tmp'])
+        target = g.choice(['no-such-target', 'ln%d' % n, '.', '/no/such/dir/x', '../result'])  # dangling, loop, dir, ...
+        return [{'k': 'probe', 'id': ident, 'form': '%', 'fx': [['mk', where, 'ln%d' % n], ['symlink']],
+                 'beh': {'actions': [{'op': 'symlink', 'path': '$SBX/%s/ln%d' % (where, n), 'target': target}]}}]
     if k == 'child_chmod':
         ident = '%sm%d' % (PFX[phase], n)
         return [{'k': 'probe', 'id': ident, 'form': '%', 'fx': [['mk', 'act', 'ro%d.txt' % n], ['chmod']],
@@ -282,6 +289,8 @@ def _model(plan, hist):
                 st['kinds'].add('env')
             elif fx[0] == 'chmod':
                 st['kinds'].add('chmod')
+            elif fx[0] == 'symlink':
+                st['kinds'].add('symlink')
     return expect, st, {'primary': primary, 'ploc': ploc, 'has_atc': has_atc}
 
 
@@ -299,7 +308,7 @@ def _probes(plan, hist):
         pr['ended_pass'] = 1
     for k, name in (('cd', 'cd_executed'), ('env', 'env_executed'), ('mk_tmp', 'tmp_file_by_case'),
                     ('mk_act_child', 'child_wrote_file'), ('mk_tmp_child', 'child_wrote_file'),
-                    ('chmod', 'chmod_readonly')):
+                    ('chmod', 'chmod_readonly'), ('symlink', 'child_left_symlink')):
         if k in st['kinds']:
             pr[name] = 1
     for e in hist['events']:
